@@ -28,9 +28,43 @@ macro_rules! lx_harness {
         #[kani::stub(WorkTokenizedBuffer::add_string_literal, WorkTokenizedBuffer::sh_add_string_literal)]
         #[kani::stub(WorkTokenizedBuffer::checkpoint, WorkTokenizedBuffer::sh_checkpoint)]
         #[kani::stub(WorkTokenizedBuffer::rollback, WorkTokenizedBuffer::sh_rollback)]
+        #[kani::stub(Lexer::emit_error, Lexer::sh_emit_error)]
+        #[kani::stub(Lexer::emit_error_info, Lexer::sh_emit_error_info)]
+        #[kani::stub(Lexer::push_mode, Lexer::sh_push_mode)]
         $(#[$m])*
         fn $name() $body
     };
+}
+
+// ---------------------------------------------------------------------------------------------
+// `Vec::push` drags the growth/realloc paths into every query (CBMC ran out of memory at 20 GB on a
+// 4-char scanner harness). The error list and the mode stack are pre-allocated by `setup`; these
+// stand-ins append into the spare capacity (push semantics, capacity overflow is an assertion), so
+// `len()`, `truncate()`, `pop()`, `last()` and indexing on the real vectors keep their meaning.
+pub(crate) const ERR_CAP: usize = 8;
+pub(crate) const MODE_CAP: usize = 24;
+
+impl<'src> Lexer<'src> {
+    pub(crate) fn sh_emit_error_info(&mut self, error_info: ErrorInfo) {
+        let len = self.errors.len();
+        assert!(len < ERR_CAP, "harness: error capacity");
+        unsafe {
+            std::ptr::write(self.errors.as_mut_ptr().add(len), error_info);
+            self.errors.set_len(len + 1);
+        }
+    }
+    pub(crate) fn sh_emit_error(&mut self, error: ErrorKind) {
+        let info = self.prep_error_info_at_cur_offset(error);
+        self.sh_emit_error_info(info);
+    }
+    pub(crate) fn sh_push_mode(&mut self, mode: LexerMode) {
+        let len = self.mode_stack.len();
+        assert!(len < MODE_CAP, "harness: mode stack capacity");
+        unsafe {
+            std::ptr::write(self.mode_stack.as_mut_ptr().add(len), mode);
+            self.mode_stack.set_len(len + 1);
+        }
+    }
 }
 
 // ---------------------------------------------------------------------------------------------
@@ -78,9 +112,10 @@ pub(crate) fn rank(m: &LexerMode) -> u8 {
 pub(crate) fn setup<'a, const K: usize, const B: usize>(t: &'a Txt<K, B>, modes: &[LexerMode]) -> Lexer<'a> {
     let src = t.as_str();
     shadow::reset(src.len());
+    shadow::set_source(src);
     let buffer = WorkTokenizedBuffer::verif_new(src.len(), 4);
     let cursor = cursor::Cursor::new(src);
-    let mut mode_stack = Vec::with_capacity(24);
+    let mut mode_stack = Vec::with_capacity(MODE_CAP);
     let mut i = 0;
     while i < modes.len() {
         mode_stack.push(modes[i].clone());
@@ -97,7 +132,7 @@ pub(crate) fn setup<'a, const K: usize, const B: usize>(t: &'a Txt<K, B>, modes:
         #[cfg(debug_assertions)]
         last_state: (src.len() as u32, Vec::new()),
         mode_stack,
-        errors: Vec::with_capacity(8),
+        errors: Vec::with_capacity(ERR_CAP),
         checkpoint: None,
         macro_nesting_level: 0,
         pending_stat_stack: BitVec::from_elem(1, false),
@@ -116,8 +151,8 @@ pub(crate) fn setup<'a, const K: usize, const B: usize>(t: &'a Txt<K, B>, modes:
 }
 
 /// how many new tokens / errors of one step the common checker inspects (more is a harness failure)
-pub(crate) const NEW_TOK_MAX: usize = 4;
-pub(crate) const NEW_ERR_MAX: usize = 3;
+pub(crate) const NEW_TOK_MAX: usize = 3;
+pub(crate) const NEW_ERR_MAX: usize = 2;
 
 pub(crate) struct Pre {
     pub(crate) pi: usize,
@@ -294,5 +329,640 @@ macro_rules! lx_ws_harness {
         }
     };
 }
-lx_ws_harness!(2, 12, 6, lx_ws_k2);
-lx_ws_harness!(3, 16, 6, lx_ws_k3);
+lx_ws_harness!(2, 12, 5, lx_ws_k2);
+lx_ws_harness!(3, 16, 5, lx_ws_k3);
+
+// ---------------------------------------------------------------------------------------------
+// deterministic stand-ins for the unicode_ident tables on non-ASCII input (exact on ASCII). Any
+// fixed predicate with start => continue will do: no property depends on the table's content.
+pub(crate) fn det_xid_start(c: char) -> bool {
+    if c.is_ascii() {
+        c.is_ascii_alphabetic()
+    } else {
+        (c as u32) & 1 == 1
+    }
+}
+pub(crate) fn det_xid_continue(c: char) -> bool {
+    if c.is_ascii() {
+        c.is_ascii_alphanumeric() || c == '_'
+    } else {
+        (c as u32) & 3 != 0
+    }
+}
+pub(crate) fn ref_name_start(c: char) -> bool {
+    det_xid_start(c) || c == '_'
+}
+/// reference: `&`+ run starting at i is a macro var expression (followed by a name start); returns (is_macro, amp_count)
+pub(crate) fn ref_macro_amp<const K: usize, const B: usize>(t: &Txt<K, B>, i: usize) -> (bool, usize) {
+    let mut j = i;
+    let mut k = 0;
+    while k < K {
+        if j < t.n && t.ch[j] == '&' && j == i + k {
+            j += 1;
+        }
+        k += 1;
+    }
+    (j < t.n && ref_name_start(t.ch[j]), j - i)
+}
+pub(crate) fn ch_at<const K: usize, const B: usize>(t: &Txt<K, B>, i: usize) -> Option<char> {
+    if i < t.n {
+        Some(t.ch[i])
+    } else {
+        None
+    }
+}
+/// reference: `%` at i followed by `*` or a name start
+pub(crate) fn ref_macro_percent<const K: usize, const B: usize>(t: &Txt<K, B>, i: usize) -> bool {
+    match ch_at(t, i + 1) {
+        Some('*') => true,
+        Some(c) => ref_name_start(c),
+        None => false,
+    }
+}
+
+/// C07: the payload of a new token whose content is chars [s,e): the sections appended to the literal
+/// buffer during the step are, in order, exactly the kept chars (every kept char inside one section,
+/// every dropped char in none), the payload range is what the step appended; no payload <=> nothing
+/// dropped and nothing appended.
+pub(crate) fn check_payload<const K: usize, const B: usize, const NSEC: usize>(t: &Txt<K, B>, s: usize, e: usize, kept: &[bool; K], payload: Payload, lit_before: usize) {
+    let mut dropped = false;
+    let mut kept_bytes = 0usize;
+    let mut i = 0;
+    while i < K {
+        if i >= s && i < e && i < t.n {
+            if kept[i] {
+                kept_bytes += t.ch[i].len_utf8();
+            } else {
+                dropped = true;
+            }
+        }
+        i += 1;
+    }
+    match payload {
+        Payload::None => {
+            assert!(!dropped, "C07: token without payload although its content needs unquoting");
+            assert!(shadow::lit_n() == lit_before && shadow::sec_n() == 0, "C07: literal buffer grew for a token without payload");
+        }
+        Payload::StringLiteral(a, b) => {
+            assert!(a as usize == lit_before, "C07: payload does not start at the previous end of the literal buffer");
+            assert!(b as usize == shadow::lit_n() && b >= a, "C07: payload does not end at the end of the literal buffer");
+            assert!((b - a) as usize == kept_bytes, "C07: payload length differs from the unquoted content");
+            // sections in source order, char i covered iff kept
+            let sn = shadow::sec_n();
+            assert!(sn <= NSEC, "harness: more literal sections than the checker inspects");
+            let mut prev_end = 0usize;
+            let mut j = 0;
+            while j < NSEC {
+                if j < sn {
+                    let (off, len) = shadow::sec(j);
+                    assert!(off != usize::MAX && off >= prev_end, "C07: literal sections out of source order");
+                    prev_end = off + len;
+                }
+                j += 1;
+            }
+            let mut i = 0;
+            while i < K {
+                if i < t.n {
+                    let cs = t.start[i];
+                    let ce = cs + t.ch[i].len_utf8();
+                    let mut covered = false;
+                    let mut j = 0;
+                    while j < NSEC {
+                        if j < sn {
+                            let (off, len) = shadow::sec(j);
+                            if off <= cs && ce <= off + len {
+                                covered = true;
+                            }
+                        }
+                        j += 1;
+                    }
+                    assert!(covered == (i >= s && i < e && kept[i]), "C07: payload differs from the unquoted content");
+                }
+                i += 1;
+            }
+        }
+        _ => assert!(false, "C07: string token with a numeric payload"),
+    }
+}
+
+macro_rules! lx_cstyle_harness {
+    ($k:literal, $b:literal, $uw:literal, $name:ident) => {
+        lx_harness! {
+            #[kani::unwind($uw)]
+            fn $name() {
+                let t = Txt::<$k, $b>::any(PFX, &['/', '*']);
+                let mut lx = setup(&t, &[LexerMode::Default]);
+                let pre = snapshot(&lx, &t);
+                lx.lex_cstyle_comment();
+                let pi = check_common(&lx, &t, &pre);
+                check_progress::<$k, $b, 2>(&lx, &t, &pre, pi);
+                // reference: first "*/" whose '*' lies after the opener
+                let mut end = t.n;
+                let mut closed = false;
+                let mut i = 2;
+                while i < $k {
+                    if !closed && i + 1 < t.n && t.ch[i] == '*' && t.ch[i + 1] == '/' {
+                        end = i + 2;
+                        closed = true;
+                    }
+                    i += 1;
+                }
+                assert!(pi == end, "C06/C11: comment does not end at the first closing delimiter");
+                assert!(shadow::tok_n() == pre.tok_n + 1, "C06: one comment token");
+                let tk = shadow::tok(pre.tok_n);
+                assert!(tk.token_type == TokenType::CStyleComment && tk.channel == TokenChannel::COMMENT, "C06: comment type on the comment channel");
+                assert!(tk.byte_offset.get() as usize == t.byte_at(pre.pi), "C02: comment token starts at the opener");
+                if closed {
+                    assert!(lx.errors.len() == pre.err_n, "C06/C09: terminated comment reports no error");
+                } else {
+                    assert!(lx.errors.len() == pre.err_n + 1 && lx.errors[pre.err_n].error_kind() == ErrorKind::UnterminatedComment, "C06: unterminated comment is reported");
+                    assert!(lx.errors[pre.err_n].last_token().map(|x| x.get() as usize) == Some(pre.tok_n), "C06/C09: the unterminated error names the comment token");
+                    assert!(lx.errors[pre.err_n].at_byte_offset() as usize == t.len, "C09: unterminated comment error at end of input");
+                }
+                assert!(lx.mode_stack.len() == pre.stack_len);
+                kani::cover!(closed, "terminated comment");
+                kani::cover!(!closed && pi == $k && t.nl_upto(pi) >= 1, "unterminated multi-line");
+                kani::cover!($k < 5 || (closed && end == 4 && t.n > 4), "empty comment followed by text");
+                kani::cover!($k < 5 || (closed && t.nl_upto(pi) >= 1), "terminated multi-line comment");
+                std::mem::forget(lx);
+            }
+        }
+    };
+}
+lx_cstyle_harness!(4, 20, 6, lx_cstyle_comment_k4);
+lx_cstyle_harness!(5, 24, 7, lx_cstyle_comment_k5);
+
+macro_rules! lx_macro_comment_harness {
+    ($k:literal, $b:literal, $uw:literal, $name:ident) => {
+        lx_harness! {
+            #[kani::unwind($uw)]
+            fn $name() {
+                let t = Txt::<$k, $b>::any(PFX, &['%', '*']);
+                let mut lx = setup(&t, &[LexerMode::Default]);
+                let pre = snapshot(&lx, &t);
+                lx.lex_macro_comment();
+                let pi = check_common(&lx, &t, &pre);
+                check_progress::<$k, $b, 2>(&lx, &t, &pre, pi);
+                // reference: first ';' outside '...' / "..." after the opener, else end of input
+                let mut end = t.n;
+                let mut done = false;
+                let mut q: u8 = 0; // 0 none, 1 single, 2 double
+                let mut i = 2;
+                while i < $k {
+                    if !done && i < t.n {
+                        let c = t.ch[i];
+                        if c == ';' && q == 0 {
+                            end = i + 1;
+                            done = true;
+                        } else if c == '\'' && q == 0 {
+                            q = 1;
+                        } else if c == '\'' && q == 1 {
+                            q = 0;
+                        } else if c == '"' && q == 0 {
+                            q = 2;
+                        } else if c == '"' && q == 2 {
+                            q = 0;
+                        }
+                    }
+                    i += 1;
+                }
+                assert!(pi == end, "C06: macro comment does not end at the first unquoted semicolon");
+                assert!(shadow::tok_n() == pre.tok_n + 1, "C06: one comment token");
+                let tk = shadow::tok(pre.tok_n);
+                assert!(tk.token_type == TokenType::MacroComment && tk.channel == TokenChannel::COMMENT, "C06: macro comment type on the comment channel");
+                assert!(tk.byte_offset.get() as usize == t.byte_at(pre.pi), "C02: comment token starts at the opener");
+                assert!(lx.errors.len() == pre.err_n && lx.mode_stack.len() == pre.stack_len, "C01: macro comment touches neither errors nor modes");
+                kani::cover!(done && q == 0 && t.nl_upto(pi) >= 1);
+                kani::cover!(!done && q != 0, "semicolon masked by an open quote");
+                std::mem::forget(lx);
+            }
+        }
+    };
+}
+lx_macro_comment_harness!(4, 20, 6, lx_macro_comment_k4);
+lx_macro_comment_harness!(5, 24, 7, lx_macro_comment_k5);
+
+/// parse_sas_hex_string is out of CBMC's reach (DESIGN.md §8): arbitrary Ok/Err.
+pub(crate) fn stub_hex_string(_t: &str) -> Result<String, ErrorKind> {
+    if kani::any() {
+        Ok(String::from("A"))
+    } else {
+        Err(ErrorKind::InvalidHexStringConstant)
+    }
+}
+
+/// reference literal suffix at boundary c (just past the closing quote): (type, chars consumed)
+pub(crate) fn ref_suffix<const K: usize, const B: usize>(t: &Txt<K, B>, c: usize) -> (TokenType, usize) {
+    match ch_at(t, c) {
+        Some('b' | 'B') => (TokenType::BitTestingLiteral, 1),
+        Some('d' | 'D') => {
+            if matches!(ch_at(t, c + 1), Some('t' | 'T')) {
+                (TokenType::DateTimeLiteral, 2)
+            } else {
+                (TokenType::DateLiteral, 1)
+            }
+        }
+        Some('n' | 'N') => (TokenType::NameLiteral, 1),
+        Some('t' | 'T') => (TokenType::TimeLiteral, 1),
+        Some('x' | 'X') => (TokenType::HexStringLiteral, 1),
+        _ => (TokenType::StringLiteral, 0),
+    }
+}
+
+macro_rules! lx_single_quoted_harness {
+    ($k:literal, $b:literal, $uw:literal, $name:ident, $fixed:expr) => {
+        lx_harness! {
+            #[kani::unwind($uw)]
+            #[kani::stub(parse_sas_hex_string, stub_hex_string)]
+            fn $name() {
+                let t = Txt::<$k, $b>::any(PFX, $fixed);
+                let mut lx = setup(&t, &[LexerMode::Default]);
+                // literal buffer not empty: payload ranges must continue it
+                shadow::preload_literal_bytes(2);
+                let pre = snapshot(&lx, &t);
+                lx.lex_single_quoted_str();
+                let pi = check_common(&lx, &t, &pre);
+                check_progress::<$k, $b, 2>(&lx, &t, &pre, pi);
+                // reference scan
+                let mut kept = [true; $k];
+                let mut close = $k + 1; // index of the closing quote
+                let mut skip = false;
+                let mut i = 1;
+                while i < $k {
+                    if close > $k && i < t.n {
+                        if skip {
+                            skip = false;
+                            kept[i] = false; // second quote of a doubled pair
+                        } else if t.ch[i] == '\'' {
+                            if i + 1 < t.n && t.ch[i + 1] == '\'' {
+                                skip = true;
+                            } else {
+                                close = i;
+                            }
+                        }
+                    }
+                    i += 1;
+                }
+                assert!(shadow::tok_n() == pre.tok_n + 1, "C06: one literal token");
+                let tk = shadow::tok(pre.tok_n);
+                assert!(tk.channel == TokenChannel::DEFAULT && tk.byte_offset.get() as usize == t.byte_at(pre.pi), "C06/C02: literal token on the default channel at the opening quote");
+                if close <= $k {
+                    let (tt, sl) = ref_suffix(&t, close + 1);
+                    assert!(pi == close + 1 + sl, "C06/C11: literal ends after its closing quote and suffix");
+                    assert!(tk.token_type == tt, "C06/C16: literal type follows the suffix (any letter case)");
+                    if tt == TokenType::HexStringLiteral {
+                        // decoding is stubbed: either a decoded payload or the error and the plain payload
+                        if lx.errors.len() == pre.err_n {
+                            assert!(matches!(tk.payload, Payload::StringLiteral(..)), "C07: decoded hex literal carries a payload");
+                        } else {
+                            assert!(lx.errors.len() == pre.err_n + 1 && lx.errors[pre.err_n].error_kind() == ErrorKind::InvalidHexStringConstant, "C07: invalid hex literal is reported");
+                            assert!(lx.errors[pre.err_n].last_token().map(|x| x.get() as usize) == Some(pre.tok_n), "C09: hex error names the literal token");
+                            check_payload::<$k, $b, { $k + 2 }>(&t, 1, close, &kept, tk.payload, pre.lit_n);
+                        }
+                    } else {
+                        assert!(lx.errors.len() == pre.err_n, "C06: terminated literal reports no error");
+                        check_payload::<$k, $b, { $k + 2 }>(&t, 1, close, &kept, tk.payload, pre.lit_n);
+                    }
+                } else {
+                    assert!(pi == t.n, "C06: unterminated literal runs to the end of input");
+                    assert!(tk.token_type == TokenType::StringLiteral, "C06: unterminated literal type");
+                    assert!(lx.errors.len() == pre.err_n + 1 && lx.errors[pre.err_n].error_kind() == ErrorKind::UnterminatedStringLiteral, "C06: unterminated literal is reported");
+                    assert!(lx.errors[pre.err_n].last_token().map(|x| x.get() as usize) == Some(pre.tok_n), "C06/C09: the unterminated error names the literal token");
+                    check_payload::<$k, $b, { $k + 2 }>(&t, 1, t.n, &kept, tk.payload, pre.lit_n);
+                }
+                assert!(lx.mode_stack.len() == pre.stack_len);
+                kani::cover!(close <= $k && matches!(tk.payload, Payload::StringLiteral(..)) && tk.token_type == TokenType::NameLiteral, "suffixed literal with an escaped quote");
+                kani::cover!(close > $k && matches!(tk.payload, Payload::StringLiteral(..)), "unterminated literal with an escaped quote");
+                kani::cover!(close <= $k && tk.token_type == TokenType::DateTimeLiteral);
+                kani::cover!(close <= $k && t.nl_upto(close) >= 1 && close + 1 < t.n, "multi-line literal followed by text");
+                std::mem::forget(lx);
+            }
+        }
+    };
+}
+lx_single_quoted_harness!(4, 20, 6, lx_single_quoted_k4, &['\'']);
+lx_single_quoted_harness!(6, 28, 8, lx_single_quoted_k6, &['\'']);
+
+// =============================================================================================
+// Macro text scanners
+
+impl<'src> Lexer<'src> {
+    pub(crate) fn stub_dead0(&mut self) {
+        kani::assume(false);
+    }
+    pub(crate) fn stub_dead1(&mut self, _b: bool) {
+        kani::assume(false);
+    }
+    pub(crate) fn stub_dead_bool(&mut self) -> bool {
+        kani::assume(false);
+        false
+    }
+    /// consume one char the way the dispatchers do before calling a text scanner
+    pub(crate) fn pre_advance(&mut self) {
+        if let Some('\n') = self.cursor.advance() {
+            self.add_line();
+        }
+    }
+}
+
+pub(crate) fn any_arg_flags() -> MacroArgNameValueFlags {
+    let ctx = match kani::any::<u8>() % 3 {
+        0 => MacroArgContext::BuiltInMacro,
+        1 => MacroArgContext::MacroCall,
+        _ => MacroArgContext::MacroDef,
+    };
+    MacroArgNameValueFlags::new(ctx, kani::any(), kani::any())
+}
+
+pub(crate) fn any_eval_flags() -> MacroEvalExprFlags {
+    let nm = if kani::any() { MacroEvalNumericMode::Float } else { MacroEvalNumericMode::Integer };
+    let na = match kani::any::<u8>() % 4 {
+        0 => MacroEvalNextArgumentMode::None,
+        1 => MacroEvalNextArgumentMode::SingleEvalExpr,
+        2 => MacroEvalNextArgumentMode::EvalExpr,
+        _ => MacroEvalNextArgumentMode::MacroArg,
+    };
+    MacroEvalExprFlags::new(nm, na, kani::any(), kani::any(), kani::any())
+}
+
+macro_rules! lx_text_scanner_harness {
+    ($k:literal, $b:literal, $uw:literal, $name:ident, $mode:expr, $call:ident, $stat_opts:expr) => {
+        lx_harness! {
+            #[kani::unwind($uw)]
+            #[kani::stub(unicode_ident::is_xid_start, det_xid_start)]
+            #[kani::stub(unicode_ident::is_xid_continue, det_xid_continue)]
+            fn $name() {
+                let t = Txt::<$k, $b>::any(PFX, &[]);
+                kani::assume(t.n >= 1);
+                let mut lx = setup(&t, &[LexerMode::Default, LexerMode::ExpectSemiOrEOF, $mode]);
+                let pre = snapshot(&lx, &t);
+                // the dispatcher consumed the first char of the text (any char)
+                lx.pre_advance();
+                lx.$call();
+                let pi = check_common(&lx, &t, &pre);
+                check_progress::<$k, $b, 2>(&lx, &t, &pre, pi);
+                // reference scan from the second char
+                let stat_opts: bool = $stat_opts;
+                let mut stop = t.n;
+                let mut done = false;
+                let mut semi = false;
+                let mut skip = 0usize;
+                let mut i = 1;
+                while i < $k {
+                    if !done && i < t.n {
+                        if skip > 0 {
+                            skip -= 1;
+                        } else {
+                            let c = t.ch[i];
+                            let nx = ch_at(&t, i + 1);
+                            if c == '\'' || c == '"' || (c == '/' && (stat_opts || nx == Some('*'))) || (stat_opts && (c == '=' || c.is_whitespace())) {
+                                stop = i;
+                                done = true;
+                            } else if c == '&' {
+                                let (m, cnt) = ref_macro_amp(&t, i);
+                                if m {
+                                    stop = i;
+                                    done = true;
+                                } else {
+                                    skip = cnt - 1;
+                                }
+                            } else if c == '%' && ref_macro_percent(&t, i) {
+                                stop = i;
+                                done = true;
+                            } else if c == ';' {
+                                stop = i;
+                                done = true;
+                                semi = true;
+                            }
+                        }
+                    }
+                    i += 1;
+                }
+                assert!(pi == stop, "C06/C13: macro text does not end at the first delimiter of its mode");
+                assert!(shadow::tok_n() == pre.tok_n + 1, "C06: one text token");
+                let tk = shadow::tok(pre.tok_n);
+                assert!(tk.token_type == TokenType::MacroString && tk.channel == TokenChannel::DEFAULT && matches!(tk.payload, Payload::None), "C06: macro text token");
+                assert!(tk.byte_offset.get() as usize == t.byte_at(pre.pi), "C02: text token starts where the dispatcher started it");
+                assert!(lx.errors.len() == pre.err_n, "C01: text scanner reports no error");
+                if semi {
+                    assert!(lx.mode_stack.len() == pre.stack_len - 1 && matches!(lx.mode_stack.last(), Some(LexerMode::ExpectSemiOrEOF)), "C14: the terminating semicolon hands over to the expectation below");
+                } else {
+                    assert!(lx.mode_stack.len() == pre.stack_len, "C01: text scanner leaves the mode on non-terminators");
+                }
+                kani::cover!(semi && t.nl_upto(pi) >= 1, "multi-line text up to the semicolon");
+                kani::cover!(!done && pi == $k, "text to end of input");
+                kani::cover!(done && !semi && t.ch[stop] == '%');
+                kani::cover!(done && !semi && t.ch[stop] == '&' && stop >= 2);
+                std::mem::forget(lx);
+            }
+        }
+    };
+}
+lx_text_scanner_harness!(3, 16, 5, lx_unrestricted_k3, LexerMode::MacroSemiTerminatedTextExpr, lex_macro_string_unrestricted, false);
+lx_text_scanner_harness!(4, 20, 6, lx_unrestricted_k4, LexerMode::MacroSemiTerminatedTextExpr, lex_macro_string_unrestricted, false);
+lx_text_scanner_harness!(3, 16, 5, lx_stat_opts_string_k3, LexerMode::MacroStatOptionsTextExpr, lex_macro_string_stat_opts, true);
+lx_text_scanner_harness!(4, 20, 6, lx_stat_opts_string_k4, LexerMode::MacroStatOptionsTextExpr, lex_macro_string_stat_opts, true);
+
+macro_rules! lx_arg_value_scan_harness {
+    ($k:literal, $b:literal, $uw:literal, $name:ident) => {
+        lx_harness! {
+            #[kani::unwind($uw)]
+            #[kani::stub(unicode_ident::is_xid_start, det_xid_start)]
+            #[kani::stub(unicode_ident::is_xid_continue, det_xid_continue)]
+            fn $name() {
+                let t = Txt::<$k, $b>::any(PFX, &[]);
+                kani::assume(t.n >= 1);
+                let flags = any_arg_flags();
+                let pnl: u32 = kani::any();
+                kani::assume(pnl < u32::MAX - 8);
+                let c0 = t.ch[0];
+                // the dispatcher reaches the scanner without consuming only on these first chars
+                kani::assume(!matches!(c0, '\'' | '"' | '&' | '%' | '/' | '\n'));
+                kani::assume(!(c0 == ',' && pnl == 0 && flags.terminate_on_comma()) && !(c0 == ')' && pnl == 0));
+                let mut lx = setup(&t, &[LexerMode::Default, LexerMode::ExpectSymbol(TokenType::RPAREN, TokenChannel::DEFAULT), LexerMode::MacroCallValue { flags, pnl }]);
+                let pre = snapshot(&lx, &t);
+                lx.lex_macro_string_in_macro_call_arg_value(flags, pnl);
+                let pi = check_common(&lx, &t, &pre);
+                check_progress::<$k, $b, 3>(&lx, &t, &pre, pi);
+                // reference scan with the combined depth
+                let mut depth: i64 = pnl as i64;
+                let mut stop = t.n;
+                let mut done = false;
+                let mut end_rparen = false;
+                let mut end_comma = false;
+                let mut skip = 0usize;
+                let mut i = 0;
+                while i < $k {
+                    if !done && i < t.n {
+                        if skip > 0 {
+                            skip -= 1;
+                        } else {
+                            let c = t.ch[i];
+                            let nx = ch_at(&t, i + 1);
+                            if c == '\'' || c == '"' || (c == '/' && nx == Some('*')) {
+                                stop = i;
+                                done = true;
+                            } else if c == '&' {
+                                let (m, cnt) = ref_macro_amp(&t, i);
+                                if m {
+                                    stop = i;
+                                    done = true;
+                                } else {
+                                    skip = cnt - 1;
+                                }
+                            } else if c == '%' && ref_macro_percent(&t, i) {
+                                stop = i;
+                                done = true;
+                            } else if c == '(' {
+                                depth += 1;
+                            } else if c == ')' && depth != 0 {
+                                depth -= 1;
+                            } else if c == ')' {
+                                stop = i;
+                                done = true;
+                                end_rparen = true;
+                            } else if c == ',' && depth == 0 && flags.terminate_on_comma() {
+                                stop = i;
+                                done = true;
+                                end_comma = true;
+                            }
+                        }
+                    }
+                    i += 1;
+                }
+                let tk = shadow::tok(pre.tok_n);
+                assert!(tk.token_type == TokenType::MacroString && tk.channel == TokenChannel::DEFAULT, "C06: argument text token");
+                assert!(tk.byte_offset.get() as usize == t.byte_at(pre.pi), "C02: argument text starts at the scanner's start");
+                assert!(lx.errors.len() == pre.err_n, "C01: argument scanner reports no error");
+                if end_comma && flags.populate_next_arg_stack() {
+                    // the comma is lexed right away as a delimiter token and the next argument is prepared
+                    assert!(pi == stop + 1 && shadow::tok_n() == pre.tok_n + 2, "C13: top-level comma is a delimiter token of its own");
+                    let cm = shadow::tok(pre.tok_n + 1);
+                    assert!(cm.token_type == TokenType::COMMA && cm.channel == TokenChannel::DEFAULT && cm.byte_offset.get() as usize == t.byte_at(stop), "C13: COMMA token at the comma");
+                    assert!(lx.mode_stack.len() == pre.stack_len + 1 && matches!(lx.mode_stack.last(), Some(LexerMode::WsOrCStyleCommentOnly)), "C13: next argument modes are pushed");
+                    let nm = &lx.mode_stack[pre.stack_len - 1];
+                    let ok = match flags.context() {
+                        MacroArgContext::MacroCall => matches!(nm, LexerMode::MacroCallArgOrValue { flags: f } if *f == flags),
+                        MacroArgContext::BuiltInMacro => matches!(nm, LexerMode::MacroCallValue { flags: f, pnl: 0 } if *f == flags),
+                        MacroArgContext::MacroDef => matches!(nm, LexerMode::MacroDefArg),
+                    };
+                    assert!(ok, "C13: mode of the next argument follows the call context");
+                } else {
+                    assert!(pi == stop && shadow::tok_n() == pre.tok_n + 1, "C13: argument text ends exactly at the first top-level delimiter / sub-token start");
+                    if end_comma || end_rparen {
+                        assert!(lx.mode_stack.len() == pre.stack_len - 1, "C13: a top-level delimiter ends the argument (mode popped)");
+                    } else {
+                        assert!(lx.mode_stack.len() == pre.stack_len, "C13: nested delimiters and text keep the argument open");
+                        assert!(matches!(lx.mode_stack.last(), Some(LexerMode::MacroCallValue { flags: f, pnl: p }) if *f == flags && *p as i64 == depth), "C13: parenthesis depth carried in the mode = depth before + '(' - ')' in the text");
+                    }
+                }
+                kani::cover!(!done && depth == pnl as i64 + 1 && pnl > 1000, "depth increases at a large depth");
+                kani::cover!(!done && depth + 1 == pnl as i64, "depth decreases");
+                kani::cover!(end_comma && pnl == 0 && stop >= 2, "comma after a balanced group");
+                kani::cover!(end_rparen && stop >= 2);
+                kani::cover!(done && !end_comma && !end_rparen && pnl > 0 && t.ch[stop] == '&');
+                std::mem::forget(lx);
+            }
+        }
+    };
+}
+lx_arg_value_scan_harness!(3, 16, 5, lx_arg_value_scan_k3);
+lx_arg_value_scan_harness!(4, 20, 6, lx_arg_value_scan_k4);
+
+macro_rules! lx_str_call_scan_harness {
+    ($k:literal, $b:literal, $uw:literal, $name:ident, $fixed:expr) => {
+        lx_harness! {
+            #[kani::unwind($uw)]
+            #[kani::stub(unicode_ident::is_xid_start, det_xid_start)]
+            #[kani::stub(unicode_ident::is_xid_continue, det_xid_continue)]
+            fn $name() {
+                let t = Txt::<$k, $b>::any(PFX, $fixed);
+                kani::assume(t.n >= 1);
+                let mask: bool = kani::any();
+                let pnl: u32 = kani::any();
+                kani::assume(pnl < u32::MAX - 8);
+                let c0 = t.ch[0];
+                let quoted_next = matches!(ch_at(&t, 1), Some('"' | '\'' | '%' | '(' | ')'));
+                // first chars on which the dispatcher calls the scanner without consuming
+                kani::assume(!matches!(c0, '\'' | '"' | '/' | '\n') && !(c0 == ')' && pnl == 0));
+                kani::assume(mask || (c0 != '&' && (c0 != '%' || quoted_next)));
+                let mut lx = setup(&t, &[LexerMode::Default, LexerMode::ExpectSymbol(TokenType::RPAREN, TokenChannel::HIDDEN), LexerMode::MacroStrQuotedExpr { mask_macro: mask, pnl }]);
+                shadow::preload_literal_bytes(1);
+                let pre = snapshot(&lx, &t);
+                lx.lex_macro_string_in_str_call(mask, pnl);
+                let pi = check_common(&lx, &t, &pre);
+                check_progress::<$k, $b, 2>(&lx, &t, &pre, pi);
+                // reference scan: %-quoted chars are text and never delimiters
+                let mut kept = [true; $k];
+                let mut depth: i64 = pnl as i64;
+                let mut stop = t.n;
+                let mut done = false;
+                let mut end_rparen = false;
+                let mut skip = 0usize;
+                let mut i = 0;
+                while i < $k {
+                    if !done && i < t.n {
+                        if skip > 0 {
+                            skip -= 1;
+                        } else {
+                            let c = t.ch[i];
+                            let nx = ch_at(&t, i + 1);
+                            if c == '\'' || c == '"' || (c == '/' && nx == Some('*')) {
+                                stop = i;
+                                done = true;
+                            } else if c == '&' && !mask {
+                                let (m, cnt) = ref_macro_amp(&t, i);
+                                if m {
+                                    stop = i;
+                                    done = true;
+                                } else {
+                                    skip = cnt - 1;
+                                }
+                            } else if c == '%' && matches!(nx, Some('"' | '\'' | '%' | '(' | ')')) {
+                                kept[i] = false;
+                                skip = 1;
+                            } else if c == '%' && !mask && ref_macro_percent(&t, i) {
+                                stop = i;
+                                done = true;
+                            } else if c == '(' {
+                                depth += 1;
+                            } else if c == ')' && depth != 0 {
+                                depth -= 1;
+                            } else if c == ')' {
+                                stop = i;
+                                done = true;
+                                end_rparen = true;
+                            }
+                        }
+                    }
+                    i += 1;
+                }
+                assert!(pi == stop && shadow::tok_n() == pre.tok_n + 1, "C13: %str text ends at the first unquoted top-level ')' / sub-token start");
+                let tk = shadow::tok(pre.tok_n);
+                assert!(tk.token_type == TokenType::MacroString && tk.channel == TokenChannel::DEFAULT, "C06: %str text token");
+                assert!(tk.byte_offset.get() as usize == t.byte_at(pre.pi), "C02: %str text starts at the scanner's start");
+                check_payload::<$k, $b, { $k + 2 }>(&t, pre.pi, stop, &kept, tk.payload, pre.lit_n);
+                assert!(lx.errors.len() == pre.err_n, "C01: %str scanner reports no error");
+                if end_rparen {
+                    assert!(lx.mode_stack.len() == pre.stack_len - 1, "C13: the closing ')' at depth 0 ends the %str text");
+                } else {
+                    assert!(matches!(lx.mode_stack.last(), Some(LexerMode::MacroStrQuotedExpr { mask_macro: m, pnl: p }) if *m == mask && *p as i64 == depth) && lx.mode_stack.len() == pre.stack_len, "C13: %-quoted parentheses do not change the depth, others do");
+                }
+                kani::cover!(matches!(tk.payload, Payload::StringLiteral(..)) && !kept[0], "escape at the very start");
+                kani::cover!(matches!(tk.payload, Payload::StringLiteral(..)) && kept[0] && end_rparen, "escape in the middle, closed");
+                kani::cover!(end_rparen && stop >= 2 && pnl == 0);
+                kani::cover!(!done && depth == pnl as i64 + 1);
+                std::mem::forget(lx);
+            }
+        }
+    };
+}
+lx_str_call_scan_harness!(3, 16, 5, lx_str_call_scan_k3, &[]);
+lx_str_call_scan_harness!(4, 20, 6, lx_str_call_scan_k4, &[]);
+lx_text_scanner_harness!(2, 12, 4, lx_unrestricted_k2, LexerMode::MacroSemiTerminatedTextExpr, lex_macro_string_unrestricted, false);
+lx_text_scanner_harness!(2, 12, 4, lx_stat_opts_string_k2, LexerMode::MacroStatOptionsTextExpr, lex_macro_string_stat_opts, true);
+lx_arg_value_scan_harness!(2, 12, 4, lx_arg_value_scan_k2);
+lx_str_call_scan_harness!(2, 12, 4, lx_str_call_scan_k2, &[]);
+lx_str_call_scan_harness!(3, 16, 5, lx_str_call_scan_esc_k3, &['%', '(']);
+lx_single_quoted_harness!(3, 16, 5, lx_single_quoted_k3, &['\'']);
+lx_single_quoted_harness!(5, 24, 7, lx_single_quoted_esc_k5, &['\'', '\'', '\'']);
